@@ -3182,30 +3182,25 @@ sse_rule_convsssql_sse41 (OrcCompiler *p, void *user, OrcInstruction *insn)
   const int dest = p->vars[insn->dest_args[0]].alloc;
   const int tmpc_max = orc_compiler_get_temp_constant (p, 8, INT32_MAX);
   const int tmpc_min = orc_compiler_get_temp_constant (p, 8, INT32_MIN);
-  const int src_backup = orc_compiler_get_temp_reg (p);
+  const int mask = orc_compiler_get_temp_reg (p);
   const int tmp = orc_compiler_get_temp_reg (p);
-  // Operate over tmp, because we don't know if src or dest are X86_XMM0
+
+  /* Clamp with compare/and/andnot/or: unlike BLENDVPD this needs no
+   * implicit XMM0, which any of the registers above may happen to be */
+  /* mask = min (src, max) */
   orc_sse_emit_movdqa (p, src, tmp);
-  if (src == X86_XMM0) {
-    orc_sse_emit_movdqa (p, src, src_backup);
-  } else {
-    orc_sse_emit_movdqa (p, X86_XMM0, src_backup);
-    orc_sse_emit_movdqa (p, src, X86_XMM0);
-  }
-  // Apply the same logic as in AVX, only that
-  // BLENDVPD expects XMM0 to be the mask
-  orc_sse_emit_pcmpgtq (p, tmpc_max, X86_XMM0);
-  orc_sse_emit_blendvpd (p, tmpc_max, tmp);
-  orc_sse_emit_movdqa (p, tmp, X86_XMM0);
-  orc_sse_emit_pcmpgtq (p, tmpc_min, X86_XMM0);
-  orc_sse_emit_blendvpd (p, tmp, tmpc_min);
-  orc_sse_emit_pshufd (p, ORC_SSE_SHUF (3, 1, 2, 0), tmpc_min, dest);
-  // Undo the changes to src or X86_XMM0 (if the latter is not dest)
-  if (src == X86_XMM0 && src != dest) {
-    orc_sse_emit_movdqa (p, src_backup, src);
-  } else if (dest != X86_XMM0) {
-    orc_sse_emit_movdqa (p, src_backup, X86_XMM0);
-  }
+  orc_sse_emit_movdqa (p, src, mask);
+  orc_sse_emit_pcmpgtq (p, tmpc_max, mask);
+  orc_sse_emit_pand (p, mask, tmpc_max);
+  orc_sse_emit_pandn (p, tmp, mask);
+  orc_sse_emit_por (p, tmpc_max, mask);
+  /* tmp = max (mask, min) */
+  orc_sse_emit_movdqa (p, tmpc_min, tmp);
+  orc_sse_emit_pcmpgtq (p, mask, tmp);
+  orc_sse_emit_pand (p, tmp, tmpc_min);
+  orc_sse_emit_pandn (p, mask, tmp);
+  orc_sse_emit_por (p, tmpc_min, tmp);
+  orc_sse_emit_pshufd (p, ORC_SSE_SHUF (3, 1, 2, 0), tmp, dest);
 }
 #endif
 
